@@ -85,14 +85,38 @@ def record(module, name, store):
         setattr(module, name, orig)
 
 
-def _system_case(ctx, max_m=6, max_ch=8):
+def _system_case(ctx, max_m=6, max_ch=8, long=False):
+    """long: a record of 2e4..7e4 samples (slow, lightly damped modes that have not died out by its end) - "every record
+    length that leaves the Hankel matrix well conditioned" includes the lengths met in practice, where an implementation may
+    take another route (blocked or lag-wise products); the free decay then must still give an exactly rank-2m matrix"""
     rng = ctx.rng
     g = ctx.nprng()
-    for _ in range(50):
-        m = rng.randint(1, max_m)
-        nch = rng.randint(2, max_ch)
+    for _ in range(200 if long else 50):
+        m = rng.randint(1, 2 if long else max_m)
+        nch = rng.randint(3, 6) if long else rng.randint(2, max_ch)
         fs = rng.choice([10.0, 100.0, 1000.0, 64.0, 51.2, 93.0, 102.4, 99.0, 12.5])  # incl. rates with 1/(1/fs) != fs in floating point
         cs = rng.random() < 0.5
+        if long:
+            ff = [rng.uniform(0.004, 0.012)] if m == 1 else [rng.uniform(0.004, 0.007), rng.uniform(0.009, 0.012)]
+            xi = [rng.uniform(0.002, max(0.0021, min(0.006, 3.0e-5 / f))) for f in ff]
+            phi = g.standard_normal((nch, m)) + (1j * g.standard_normal((nch, m)) if cs else 0)
+            S = sysgen.ModalSystem(np.array(ff) * fs, xi, phi, fs)
+            decay = 2 * math.pi * float(np.max(S.xi * S.fn)) / fs  # per sample
+            Nl = int(min(70000, 4.0 / decay))  # the slowest-decaying... every mode still has e^-4 of its amplitude at the end
+            if Nl < 20000:
+                continue
+            r = rng.randint(1, nch)
+            ref = sorted(rng.sample(range(nch), r))
+            if np.min(np.abs(S.phi[ref, :]).max(axis=0)) < 0.2:
+                continue
+            idx = sysgen.observability_index(S, ref, tol=1e-6)
+            if idx is None:
+                continue
+            br = max(idx + 1, rng.choice([20, 25, 30, 40, 50]))
+            amp = g.standard_normal(m) + 1j * g.standard_normal(m)
+            amp /= np.abs(amp)
+            ctx.count("system_long_record")
+            return S, ref, br, rng.randint(max(20000, Nl // 2), Nl), amp, cs
         S = sysgen.random_system(rng, g, m, nch, fs, cs)
         if m >= 2 and rng.random() < 0.25:
             # two distinct modes whose frequencies differ by 0.8 % .. 4 % only (closer than the default matching tolerance
@@ -249,7 +273,7 @@ def oracle(ctx, scale):
 
     rng = ctx.rng
     for k in range(ctx.n(30, 1200) * scale):
-        S, ref, br, N, amp, cs = _system_case(ctx)
+        S, ref, br, N, amp, cs = _system_case(ctx, long=(k % 10 in (3, 6)))
         Y = S.response(N, amp)
         m2 = 2 * S.m
         inp = {"fn": S.fn.tolist(), "xi": S.xi.tolist(), "phi": [[str(v) for v in r] for r in S.phi.tolist()], "fs": S.fs,
@@ -276,7 +300,7 @@ def oracle(ctx, scale):
                 if not _check_poles(ctx, f"{method}/{routine}", fn, xi, phi, lam, S, inp | {"method": method, "routine": routine}):
                     return
         # through the classes: SingleSetup + SSIcov (cov_mm) / SSIdat, neutral hard criteria, mpe at order 2m
-        if k % 3 == 0 or getattr(S, "close_pair", False):
+        if k % 3 == 0 or getattr(S, "close_pair", False):  # (k % 10 == 6, the long records, is a multiple of 3 for k = 6, 36, ...)
             hc = dict(conj=False, xi_max=1.0, mpc_lim=0.0, mpd_lim=math.pi / 2, cov_max=1e9)
             ss = SingleSetup(Y.copy(), fs=S.fs)
             omax = min((br + 1) * len(ref), br * Y.shape[1])  # the Hankel matrix has no more singular values than that
